@@ -3,7 +3,7 @@ import ast
 import re
 
 from ..core import AnalysisError
-from ..pyfront import unparse, try_const
+from ..pyfront import unparse, try_const, norm_key
 from .. import predabs
 from .shared_py import inn,  has, stmt_srcs, contains, module_globals
 
@@ -16,6 +16,7 @@ from ..pyfront import ws  # noqa: E402,F401  (whitespace-collapsed, rename/norma
 def stiffness(ctx, L):
     """(b) calc_wire_stiffness assigns the join of its parts: UNLIMITED if the last member is greedy, DYNAMIC if any
     member is an ext-sized array, and never less than the maximum member kind."""
+    lowermost(ctx, L)
     m = ctx.py.mod('prophyc.model')
     f = m.func('_SerializableContainer.calc_wire_stiffness')
     ifs = [n for n in f.walk() if isinstance(n, ast.If) and 'greedy' in unparse(n.test)]
@@ -98,6 +99,22 @@ def stiffness(ctx, L):
     es = m.func('evaluate_stiffness_kinds')
     L.check('if isinstance(node, Struct): node.calc_wire_stiffness()' in ws(unparse(es.node)), 'E6.stiffness-join',
             'evaluate_stiffness_kinds', es.site(), 'kinds are re-evaluated for every struct after cross-referencing', '')
+
+
+def lowermost(ctx, L):
+    """Typedef.lowermost_typedef (the kind of a member comes from the end of its alias chain): follows `.definition` while it is a
+    Typedef - nothing else stops the walk (a member is a Typedef too: its own name is a *field* name, not a type name)."""
+    m = ctx.py.mod('prophyc.model')
+    f = m.func('Typedef.lowermost_typedef')
+    from . import shared_py as P
+    L.check(P.body_is(f, """
+        lowermost = self.definition
+        while isinstance(lowermost, Typedef):
+            lowermost = lowermost.definition
+        return lowermost
+    """, params=['self']), 'E6.stiffness-join', 'Typedef.lowermost_typedef', f.site(),
+            'the end of the alias chain is reached by following .definition through every Typedef, and only through Typedefs; got: %s'
+            % P.sem_body(f), ws(unparse(f.node))[:300])
 
 
 def dynamic_predicates(ctx, L):
@@ -186,6 +203,8 @@ def anys_of(f):
 
 def size_formulas(ctx, L):
     """(d)(h) the model's size rules depend on the documented inputs through the documented aggregators."""
+    definitions_follow_type_names(ctx, L)
+    reevaluation(ctx, L)
     m = ctx.py.mod('prophyc.model')
     G = module_globals(m)
     ao = m.func('evaluate_sizes.evaluate_array_and_optional_size')
@@ -300,3 +319,119 @@ def size_formulas(ctx, L):
     seq = [c for c in ordered_calls(em.node.body) if m.has_func(c)]
     L.check(seq == ['topological_sort', 'cross_reference', 'evaluate_stiffness_kinds', 'evaluate_sizes'], 'F16.pass-order', 'evaluate_model',
             em.site(), 'sort, cross-reference, kinds, sizes - in this order', str(seq))
+
+
+def definitions_follow_type_names(ctx, L):
+    """cross_reference re-binds every member's / typedef's `definition` from its *current* `type_name` (the patch step may have
+    re-typed a member after the front-end bound it): every way out of cross_reference_types has assigned `.definition`, the
+    assigned value comes from the builtin table / the types index, and no decision of the function reads the old definition."""
+    m = ctx.py.mod('prophyc.model')
+    f = m.func('cross_reference.cross_reference_types')
+    p = f.params[0]
+    reads_old = [n for n in f.walk() if isinstance(n, ast.Attribute) and n.attr == 'definition' and isinstance(n.ctx, ast.Load)
+                 and unparse(n.value) == p]
+    L.check(not reads_old, 'E6.definition-rebound', 'cross_reference_types|reads-old-definition', f.site(reads_old[0] if reads_old else None),
+            'the cross-reference step consults the definition a member already carries: after a `type` patch (or any re-typing between '
+            'parsing and evaluation) the member keeps the definition of its old type - layout and kind are computed from a type the '
+            'generators no longer emit', ws(unparse(m.parent(reads_old[0]))) if reads_old else '')
+
+    def assigns(st):
+        return isinstance(st, ast.Assign) and any(isinstance(t, ast.Attribute) and t.attr == 'definition' and unparse(t.value) == p
+                                                  for t in st.targets)
+
+    def exits_ok(block, assigned):
+        """every path through the block that leaves the function has assigned .definition; returns (ok, assigned at fall-through)"""
+        for st in block:
+            if assigns(st):
+                assigned = True
+            elif isinstance(st, ast.Return):
+                return assigned, None
+            elif isinstance(st, ast.Raise):
+                return True, None
+            elif isinstance(st, ast.If):
+                ok1, a1 = exits_ok(st.body, assigned)
+                ok2, a2 = exits_ok(st.orelse, assigned)
+                if not (ok1 and ok2):
+                    return False, None
+                if a1 is None and a2 is None:
+                    return True, None
+                assigned = all(a for a in (a1, a2) if a is not None)
+            elif isinstance(st, (ast.For, ast.While, ast.With, ast.Try)):
+                ok1, a1 = exits_ok(getattr(st, 'body', []), assigned)
+                if not ok1:
+                    return False, None
+        return True, assigned
+    ok, at_end = exits_ok(f.node.body, False)
+    L.check(ok and at_end is not False, 'E6.definition-rebound', 'cross_reference_types|every-exit-assigns', f.site(),
+            'every way out of cross_reference_types must have (re)assigned the definition from the current type name', ws(unparse(f.node))[:300])
+    vals = [ws(unparse(a.value)) for a in f.walk() if assigns(a)]
+    srcs_ok = bool(vals) and all(v == 'None' or re.match(r'^types_index\.get\(%s\.type_name\)$' % re.escape(p), v) or
+                                 re.match(r'^types_index\[%s\.type_name\]$' % re.escape(p), v) for v in vals)
+    L.check(srcs_ok, 'E6.definition-rebound', 'cross_reference_types|source', f.site(),
+            'the definition comes from the types index looked up by the current type name (None for builtins): %s' % vals, str(vals))
+    cr = m.func('cross_reference')
+    calls = [c for c in cr.walk() if (isinstance(c, ast.Call) and unparse(c.func) == 'cross_reference_types') or
+             (isinstance(c, ast.Call) and unparse(c.func) == 'map' and c.args and unparse(c.args[0]) == 'cross_reference_types')]
+    L.check(len(calls) >= 3, 'E6.definition-rebound', 'cross_reference|applied-to-all', cr.site(),
+            'typedefs, struct members and union members are all cross-referenced (found %d applications)' % len(calls), '')
+
+
+def reevaluation(ctx, L):
+    """The definitions of an included file are shared by every includer and `evaluate_sizes` walks them again for each one
+    (Include.members recursion). The slot-size and block-alignment steps rewrite a member's byte_size / alignment in terms of
+    their previous value, so a second walk is only harmless if every walk first resets both from the member's type: every
+    path through evaluate_member_size that reports success must have assigned both attributes from values that do not depend
+    on them."""
+    m = ctx.py.mod('prophyc.model')
+    es = m.func('evaluate_sizes')
+    recurses = any(isinstance(n, ast.Call) and unparse(n.func) == 'evaluate_sizes' for n in es.walk())
+    selfupd = set()
+    for q in ('evaluate_sizes.evaluate_array_and_optional_size', 'evaluate_sizes.evaluate_partial_padding_size'):
+        g = m.func(q)
+        for a in g.walk():
+            if isinstance(a, (ast.Assign, ast.AugAssign)):
+                tg = a.targets[0] if isinstance(a, ast.Assign) else a.target
+                if isinstance(tg, ast.Attribute) and (isinstance(a, ast.AugAssign) or any(
+                        isinstance(x, ast.Attribute) and x.attr == tg.attr for x in ast.walk(a.value))):
+                    selfupd.add(tg.attr)
+    L.check(recurses and selfupd == {'byte_size', 'alignment'}, 'C16e.reevaluation-reset', 'evaluate_sizes|self-updates', es.site(),
+            'inventory: evaluate_sizes re-walks Include.members and the slot/block steps rewrite byte_size and alignment from their '
+            'previous values (found: recursion %s, self-updated attributes %s)' % (recurses, sorted(selfupd)), '')
+    f = m.func('evaluate_sizes.evaluate_member_size')
+    mem = f.params[1]
+
+    def resets(stmts, upto, need):
+        """attributes of `mem` assigned afresh by the statements preceding `upto` in this block"""
+        got = set()
+        for st in stmts:
+            if st is upto:
+                break
+            if isinstance(st, ast.Assign):
+                tgs = []
+                for t in st.targets:
+                    tgs += list(t.elts) if isinstance(t, ast.Tuple) else [t]
+                dep = any(isinstance(x, ast.Attribute) and x.attr in need and unparse(x.value) == mem for x in ast.walk(st.value))
+                for t in tgs:
+                    if isinstance(t, ast.Attribute) and unparse(t.value) == mem and t.attr in need and not dep:
+                        got.add(t.attr)
+        return got
+
+    n = 0
+    for r in [x for x in f.walk() if isinstance(x, ast.Return)]:
+        if isinstance(r.value, ast.Constant) and not r.value.value:
+            continue
+        n += 1
+        got = set()
+        node = r
+        while node is not f.node:
+            par = m.parent(node)
+            for field in ('body', 'orelse', 'finalbody'):
+                blk = getattr(par, field, None)
+                if isinstance(blk, list) and node in blk:
+                    got |= resets(blk, node, selfupd)
+            node = par
+        L.check(selfupd <= got, 'C16e.reevaluation-reset', 'evaluate_member_size|%s' % norm_key(f, r), f.site(r),
+                'evaluate_member_size reports success on a path that has not reset %s of the member: when the file is walked again '
+                'for another includer, the array/optional slot step multiplies the already multiplied size (sizes of included structs '
+                'grow with every inclusion and differ from the single-file compilation)' % sorted(selfupd - got), ws(unparse(r)))
+    L.floor('C16e.reevaluation-reset', n, 1)
